@@ -152,7 +152,25 @@ type c04Repair struct {
 	apply func(s string) (string, bool)
 }
 
+// blanks around the ':' of a QName (not '::'): removed by the repair
+var c04QNameBlanks = regexp.MustCompile(`([\pL\pN_.\-])[ \t\r\n]*:[ \t\r\n]*([\pL_*])`)
+
+func c04RepairQNameBlanks(s string) (string, bool) {
+	if !regexp.MustCompile(`[ \t\r\n]:|:[ \t\r\n]`).MatchString(s) {
+		return s, false
+	}
+	ns := c04QNameBlanks.ReplaceAllString(s, "$1:$2")
+	return ns, ns != s
+}
+
 var c04ExprRepairs = []c04Repair{
+	{"C04/expr/blanks-inside-qname-accepted", c04RepairQNameBlanks},
+	{"C04/expr/character-U+F001-rejected", func(s string) (string, bool) {
+		if !strings.ContainsRune(s, 0xF001) {
+			return s, false
+		}
+		return strings.ReplaceAll(s, "\uf001", "\uf000"), true
+	}},
 	{"C04/expr/empty-parentheses-accepted", func(s string) (string, bool) {
 		toks, _ := xp.LexExpr(s)
 		rs := []rune(s)
@@ -353,6 +371,13 @@ func c04CheckLeafref(s string, res *core.CaseResult) {
 	class := "C04/leafref/accepted-but-not-path-arg"
 	if !got {
 		class = "C04/leafref/rejected-but-valid-path-arg"
+	} else if ns, ok := c04RepairQNameBlanks(s); ok {
+		// fully explained by blanks inside node identifiers? then the repaired path agrees
+		if w2 := xp.RecognisePathArg(ns, c04Known); w2 != xp.Unasserted {
+			if g2, _ := implLeafref(ns); g2 == (w2 == xp.Accept) {
+				class = "C04/leafref/blanks-inside-node-identifier-accepted"
+			}
+		}
 	}
 	res.Fail(class, s, fmt.Sprintf("implementation accepted=%v, reference verdict=%s", got, want))
 }
@@ -435,6 +460,7 @@ func joinToks(r *core.Rng, ts []string) string {
 var c04SpaceLike = []string{"\f", "\v", "\x00", "\x1f", "\x7f", "\u00a0", "\u0085", "\u1680", "\u2028", "\u3000", "\u200b", "\ufeff", " ", "\t", "\r", "\n", " \t\r\n "}
 
 var c04Hostile = []string{
+	"p : a", "p :a", "p: a", "p : *", "/p : a/ q :b", "a[p : k = 1]", "p\t:\na", "'\uf001'", "a = '\uf001'", "'\uf000\uf002'",
 	"", " ", "()", "( )", "(())", "1e5", "1E5", "1.5e3", ".5e1", "1e", "1e+5", "1.2.3", "1..2", "1.", ".", "..", "...", "....",
 	"'abc", "\"abc", "'a\"", "a'b'", "a[", "a]", "a[]", "a[[1]]", "a[1]]", "a/", "/", "//", "/a//b", "a//b", "//a", "@a", "a/@b",
 	"child::a", "parent::*", "self::node()", "foo::a", "a::b", "text()", "node()", "comment()", "processing-instruction('x')",
@@ -452,6 +478,7 @@ var c04Hostile = []string{
 }
 
 var c04LrHostile = []string{
+	"/p : a/p:b", "/p :a", "/p: a", "../a[p : k = current()/../x]/c", "/a/p\t:\nb",
 	"", "/", "/a", "/a/b", "a", "a/b", "../a", "../../a/b", "..", "../", "../..", "/..", "/a/..", "/a/../b", "./a", "/a/*", "/*", "../*", "/a[b=current()/../c]",
 	"/a[b=current()/../c]/d", "/a[b=current()/../c][e=current()/../../f/g]/d", "../a[b=current()/../c]", "../a[b=current()/../c]/d", "/a[b=current()/c]",
 	"/a[b=current()]", "/a[b='x']", "/a[b=1]", "/a[b=../c]", "/a[1]", "/a[]", "/a[b]", "/a[b=current()/../c", "/a[b=current ( ) / .. / c]", " / a / b ", "/a[ b = current()/../c ]",
